@@ -127,6 +127,8 @@ inductive Step where
   | dup                                  -- the value, then a deep copy of it (taken before)
   | dropOdd                              -- drops values whose (integer) data is odd
   | failOn (x : Int)                     -- raises `ValueError` for data `== x`, else passes the value
+  | count (k : Nat)                      -- `lena.flow.Count(name)` as a Run element (stateful, lazy); `k` = slot of `name`
+  | acc (kind : Nat)                     -- an accumulator (`AccKind` number `kind`) as a Run element (stateful, eager)
   deriving Repr
 
 /-- what the element yields for one value, and how it ends -/
@@ -161,15 +163,13 @@ def Step.run (st : Step) (v : Val) : Trace Val IErr :=
     match dc.1 with
     | .int i => if i = x then ⟨[], some "Other:ValueError"⟩ else ⟨[v], none⟩
     | _ => ⟨[v], none⟩
+  -- the stateful elements act on a whole flow (`Step.apply`), not on single values
+  | .count _ => ⟨[], some "unmodelled"⟩
+  | .acc _ => ⟨[], some "unmodelled"⟩
 
 /-- a generator piped through an element: `for v in t: yield from st.run(v)` (lazily) -/
 def pipe (f : Val → Trace Val IErr) (t : Trace Val IErr) : Trace Val IErr :=
   (traceFlatMap f t.out).append ⟨[], t.fin⟩
-
-/-- `Sequence(*steps).run(flow)` for the generator `t` -/
-def postRun : List Step → Trace Val IErr → Trace Val IErr
-  | [], t => t
-  | st :: rest, t => postRun rest (pipe (st.run names) t)
 
 /-! ## the accumulator -/
 
@@ -222,6 +222,61 @@ def accCompute (kind : AccKind) (s : AccState) : Trace Val IErr :=
     if s.count = 0 then ⟨[], some "LenaValueError"⟩ else ⟨[.pair (.int s.sum) s.lastCtx], none⟩
   | .sumFail => ⟨[.pair (.int s.sum) s.lastCtx], some "Other:RuntimeError"⟩
 
+/-! ## elements on whole flows: `Sequence(*steps).run(flow)` -/
+
+def accKindOf : Nat → AccKind
+  | 0 => .sum
+  | 1 => .count
+  | 2 => .store
+  | 3 => .sumCount
+  | 4 => .each
+  | 5 => .failEmpty
+  | _ => .sumFail
+
+def accFillAll (s : AccState) : List Val → Except IErr AccState
+  | [] => .ok s
+  | v :: vs =>
+    match accFill names s v with
+    | .error e => .error e
+    | .ok s' => accFillAll s' vs
+
+/-- `lena.flow.Count(name).run(flow)` (flow/elements.py:74-107) for a fresh counter: every value is held
+back until the next one has been pulled; the last value gets `context[name] = number of values`; an
+exception of the incoming flow loses the value held back. -/
+def countRun (k : Nat) (t : Trace Val IErr) : Trace Val IErr :=
+  match t.fin with
+  | some e => ⟨t.out.dropLast, some e⟩
+  | none =>
+    match t.out.getLast? with
+    | none => ⟨[], none⟩
+    | some last =>
+      let dc := C14.getDataContext names last
+      ⟨t.out.dropLast ++ [.pair dc.1 (setSlot dc.2 k (some (.int t.out.length)))], none⟩
+
+/-- `el.run(flow)` for one element of a `Sequence`, called when the sequence's `run` is called: a
+generator (`.ok`, nothing has run yet) — except for an accumulator (`Run._fc_run`, adapters.py:703-712),
+which consumes the incoming flow and is filled at once (so it can raise at once), and returns the
+generator `compute()`. -/
+def Step.apply (st : Step) (t : Trace Val IErr) : Except IErr (Trace Val IErr) :=
+  match st with
+  | .count k => .ok (countRun names k t)
+  | .acc kind =>
+    match accFillAll names (accInit names) t.out with
+    | .error e => .error e
+    | .ok s =>
+      match t.fin with
+      | some e => .error e
+      | none => .ok (accCompute names (accKindOf kind) s)
+  | st => .ok (pipe (st.run names) t)
+
+/-- `Sequence(*steps).run(flow)`: `for el in seq: flow = el.run(flow)` — evaluated immediately -/
+def postRun : List Step → Trace Val IErr → Except IErr (Trace Val IErr)
+  | [], t => .ok t
+  | st :: rest, t =>
+    match st.apply names t with
+    | .error e => .error e
+    | .ok t' => postRun rest t'
+
 /-! ## the analysis `FillComputeSeq(*pre, acc, *post)` -/
 
 mutual
@@ -254,10 +309,15 @@ structure Spec where
 /-- the analysis described by `sp` -/
 def Spec.analysis (sp : Spec) : Analysis AccState V Val IErr where
   fill := fun s v => preFill names sp.pre s v
-  compute := fun s => postRun names sp.post (accCompute names sp.acc s)
+  -- (no accumulator among the post-elements here, so `run` of the post-sequence cannot raise at once)
+  compute := fun s =>
+    match postRun names sp.post (accCompute names sp.acc s) with
+    | .ok t => t
+    | .error e => ⟨[], some e⟩
 
-/-- `MapBins(seq)` with `seq = Sequence(*steps)`: `seq.run([cell])` -/
-def seqRun (steps : List Step) (cell : Val) : Trace Val IErr :=
+/-- `MapBins(seq)` with `seq = Sequence(*steps)`: `copy.deepcopy(seq).run([cell])` — a fresh copy, so the
+stateful elements start from their initial state for every cell -/
+def seqStart (steps : List Step) (cell : Val) : Except IErr (Trace Val IErr) :=
   postRun names steps ⟨[cell], none⟩
 
 /-! ## the argument variable, the selectors, the edge formatting -/
